@@ -54,6 +54,9 @@ Definition argsort (n : nat) (d : nat -> R) : list nat := fold_right (ins d) [] 
    then sliced - so that 'LM' / 'SM' mean largest / smallest for that order *)
 Definition eig_sorted (m : nat) (w : nat -> R) (V : fm) (k : Z) (wh : which) : option eout :=
   slice_out k wh (take (argsort m w) (mkeout m w V)).
+(* the same with the permutation returned by the backend's argsort as data (an oracle: any permutation that sorts;
+   the order inside groups of equal keys is unspecified) *)
+Definition eig_take (idx : list nat) (o : eout) (k : Z) (wh : which) : option eout := slice_out k wh (take idx o).
 (* eig(Identity): ones, the dense identity, then the slice *)
 Definition eig_ident (n : nat) (k : Z) (wh : which) : option eout :=
   slice_out k wh (mkeout n (fun _ => r1) eye).
@@ -68,6 +71,7 @@ Variable solve : nat -> fm -> (nat -> R) -> (nat -> R).
 (* the vectors are written into np.eye(n), a float64 buffer: [cast] is the conversion numpy applies on assignment
    (the identity for real data; complex solutions lose their imaginary part) *)
 Variable cast : R -> R.
+Definition flip (n : nat) (M : fm) : fm := fun i j => M (n - 1 - i)%nat (n - 1 - j)%nat.
 Definition tri_sys (L : fm) (i : nat) : fm := fun a b => L a b - L i i * delta a b.
 Definition tri_rhs (L : fm) (i : nat) : nat -> R := fun a => - L a i.
 Definition tri_eigvecs (L : fm) : fm :=
@@ -78,12 +82,14 @@ Definition eig_tri (n : nat) (L : fm) (k : Z) (wh : which) : option eout :=
   slice_out k wh (take idx (mkeout n vals (tri_eigvecs L))).
 (* repaired rule for a LOWER triangular operator: the routine is applied to the matrix with rows and columns reversed
    (which is upper triangular) and the result is reversed back *)
-Definition flip (n : nat) (M : fm) : fm := fun i j => M (n - 1 - i)%nat (n - 1 - j)%nat.
 Definition eig_tri_lower (n : nat) (L : fm) (k : Z) (wh : which) : option eout :=
   let vals := fun i => L i i in
   let idx := argsort n vals in
   slice_out k wh (take idx (mkeout n vals (flip n (tri_eigvecs (flip n L))))).
 
+Definition diag_out (n : nat) (d : nat -> R) : eout := mkeout n d eye.
+Definition tri_out (n : nat) (L : fm) : eout := mkeout n (fun i => L i i) (tri_eigvecs L).
+Definition tri_lower_out (n : nat) (L : fm) : eout := mkeout n (fun i => L i i) (flip n (tri_eigvecs (flip n L))).
 (* eigmax / eigmin: first value of eig(A, 1, LM|SM) *)
 Definition first_val (o : option eout) : option R := match o with Some e => Some (ew e 0%nat) | None => None end.
 End Model.
